@@ -120,15 +120,6 @@ def renameNode (n : Node) (nm : String) : Node :=
   | .file _ c => .file nm c
   | .dir _ cs h => .dir nm cs h
 
-/-- write the generations of a create back into the `ascmhl` folders -/
-def applyWritten (t : Node) (ws : List Written) : Node :=
-  ws.foldl (fun t w => updateAt t w.histRoot fun d => match d with
-    | .dir nm cs h =>
-      let s := h.getD {}
-      .dir nm cs (some { s with gens := s.gens ++ [w.gen],
-                                chain := s.chain ++ [⟨w.number, w.gen.fileName⟩], chainPresent := true })
-    | x => x) t
-
 /-! ### JSON encoding -/
 
 def entryJ (e : Entry) : Json :=
